@@ -111,11 +111,6 @@ CHECKS = {
             {'engine': 'mtsim', 'config': 'asan', 'variant': 'exit', 'runs': [20000, 1000000]},
             {'engine': 'protosim', 'config': 'asan', 'variant': 'bakebase', 'runs': [3000, 300000]},
             {'engine': 'protosim', 'config': 'asan32', 'variant': 'bakebase', 'runs': [1000, 100000]},
-            # MemorySanitizer legs: fresh simulated-heap memory and C-stack locals are tracked as undefined
-            {'engine': 'faultcall', 'config': 'msan', 'variant': 'base', 'runs': [6000, 300000]},
-            {'engine': 'faultcall', 'config': 'msan32', 'variant': 'base', 'runs': [2000, 100000]},
-            {'engine': 'streamsim', 'config': 'msan', 'runs': [100000, 3000000]},
-            {'engine': 'protosim', 'config': 'msan', 'variant': 'bakebase', 'runs': [2000, 200000]},
         ],
         'sigs_per_leg': True,
         'rule': ('a case is one fault-free simulated call (faultcall: one of the high-level functions with valid arguments over its documented '
@@ -131,7 +126,6 @@ CHECKS = {
             'partial by construction (DESIGN.md C07): only what the environment half can decide - exact sizes, red zones, garbage differential, ASSERTs on',
             'math-layer functions with a caller stack have their own descriptors (fc_math.c, fc_math2.c: zz, pp, pri, zm, qr, gfp, gf2, ec, ecp, ec2); word-level (ww) and stack-free functions are reached only through their callers',
             'UBSan alignment/integer checks are off (bee2 does unaligned word loads by design)',
-            'MemorySanitizer legs: shadow propagation through a ^= (f ^ a) & bit is not bit-precise; the one place where bee2 applies that idiom to fresh memory (ppMinPolyMod building a bit sequence with wwSetBit) gets its stack marked defined in the descriptor and is decided by the garbage/stale differentials only',
         ],
         'mandatory_probes': {'any': ['calls', 'fault.state_migrated', 'probe.several_exit_destructors', 'probe.protocol_sessions_twice']},
     },
